@@ -21,6 +21,7 @@ from . import c15
 
 EXPLANATION = "Field provenance of the WalkOptions literal in ModuleGraph::segment (T4), arm table of the copy loop (T8), guard of the clone shortcut (T5)."
 EXPLANATION += " " + "Plus: the walker's enqueue and selection rules (shared with C15/C02), since the segment is exactly what the walk yields."
+EXPLANATION += " " + "Plus C18-s: the walk feeding the segment must not skip loaded module slots (reports the known finding F8: TypesOnly graphs)."
 NOT_DECIDED = "equality with a direct build of the roots"
 CONFIGS = ["default", "nofastcheck"]  # thorough tier also analyses the build without fast_check / symbols
 ASSUMPTIONS = []
